@@ -123,7 +123,8 @@ def jsonable(c, out):
     return dict(frames=[f.tolist() for f in c['frames']], search_range=[str(x) for x in c['sr']] if isinstance(c['sr'], tuple) else str(c['sr']),
                 memory=c['memory'], max_size=c['max_size'], link_strategy=c['strategy'], impl_labels=out,
                 **({'search_range_spelling': c['sr_spell']} if c.get('sr_spell') else {}), **({'bystander': True} if c.get('bystander') else {}),
-                **({'entry': 'link'} if c.get('entry') == 'link' else {}))
+                **({'entry': 'link'} if c.get('entry') == 'link' else {}),
+                **({'entry': 'reused-linker', 'first_movie': [np.asarray(f).tolist() for f in c['first_movie']]} if c.get('entry') == 'reused-linker' else {}))
 
 
 def numba_cap_binding(c):
@@ -507,6 +508,18 @@ def run(chk):
             continue
         if c['bystander']:
             chk.tally('link_iter with another linking job alive')
+        if not c['bystander'] and c['memory'] >= 1 and len(c['frames']) >= 2 and len(c['frames'][0]) and chk.rng.random() < 0.3:
+            # the Linker object itself, re-used: driven by hand through the first frame of this movie followed by an empty one
+            # (every particle is then lost and REMEMBERED), then re-initialised for the movie: init_level starts from nothing
+            c['entry'] = 'reused-linker'
+            first = [c['frames'][0] + 0.25, np.empty((0, c['frames'][0].shape[1]))]
+            c['first_movie'] = first
+            chk.tally('Linker object re-used for a second movie (remembered particles of the first must be gone)')
+            with record_subnets(sublog, 400 if chk.tier == 'quick' else 6000):
+                out = linkgen.run_linker_reused(first, c['frames'], c['sr'], memory=c['memory'], link_strategy=c['strategy'], max_size=c['max_size'])
+            cases.append(c); outs.append(out); terms.append(case_term(c, out))
+            chk.tally('strategy=' + c['strategy']); chk.tally('memory=%d' % c['memory'])
+            continue
         with record_subnets(sublog, 400 if chk.tier == 'quick' else 6000):
             out = linkgen.run_link_iter(c['frames'], c['sr'], memory=c['memory'], link_strategy=c['strategy'], max_size=c['max_size'], bystander=c['bystander'])
         cases.append(c); outs.append(out); terms.append(case_term(c, out))
@@ -597,7 +610,7 @@ def replay(chk, path):
     if r.get('kind') == 'movie':
         cj = r['case']
         sr = tuple(Fraction(x) for x in cj['search_range']) if isinstance(cj['search_range'], list) else Fraction(cj['search_range'])
-        c = dict(frames=[np.array(f, dtype=float).reshape(len(f), -1) for f in cj['frames']], sr=sr, memory=cj['memory'],
+        c = dict(frames=linkgen.frames_from_json(cj['frames']), sr=sr, memory=cj['memory'],
                  max_size=cj['max_size'], strategy=cj['link_strategy'])
         c['ndim'] = max(f.shape[1] for f in c['frames'])
         c['bystander'] = bool(cj.get('bystander'))
@@ -605,6 +618,11 @@ def replay(chk, path):
             from props import c03
             with linkgen.size_limit(c['max_size']):
                 out = c03.run_table(c['frames'], c['sr'], c['memory'], c['strategy'], 'link')
+        elif cj.get('entry') == 'reused-linker':
+            nd = c['ndim']
+            first = [np.array(f, dtype=float).reshape(len(f), nd) for f in cj['first_movie']]
+            c['entry'] = 'reused-linker'; c['first_movie'] = first
+            out = linkgen.run_linker_reused(first, c['frames'], c['sr'], memory=c['memory'], link_strategy=c['strategy'], max_size=c['max_size'])
         else:
             out = linkgen.run_link_iter(c['frames'], c['sr'], memory=c['memory'], link_strategy=c['strategy'], max_size=c['max_size'], bystander=c['bystander'])
         res = common.coq_eval_lists(chk.work, IMPORTS, FUNC, [case_term(c, out)])
